@@ -26,6 +26,7 @@ import (
 
 	erpc "github.com/henrylee2cn/erpc/v6"
 	"github.com/henrylee2cn/erpc/v6/codec"
+	"github.com/henrylee2cn/erpc/v6/plugin/ignorecase"
 	"github.com/henrylee2cn/erpc/v6/socket"
 
 	"verifharness/bed"
@@ -44,6 +45,11 @@ const (
 	LateUnknown  = "late-unknown"  // register, probe without unknown-handlers, set unknown-call, probe, set unknown-push, probe
 	EarlyUnknown = "early-unknown" // set the unknown-handlers on the peer first, then register, probe
 	SubUnknown   = "sub-unknown"   // register, set the unknown-handlers through SubRouter.ToRouter(), probe
+	// rename dimension: a header-stage plug-in on the peer rewrites the service method (ResetServiceMethod in
+	// PostReadCallHeader / PostReadPushHeader); dispatch must follow the FINAL name. Probed without, then with
+	// both unknown-handlers.
+	RenameIgnoreCase = "rename-ignorecase" // the shipped plugin/ignorecase (final name = strings.ToLower(request))
+	RenameAlias      = "rename-alias"      // a harness alias plug-in (final name = alias table, applied once)
 )
 
 // Reg is one registration to perform.
@@ -101,6 +107,7 @@ type ProbeReport struct {
 	Phase  string  `json:"phase"` // A: no unknown-handler set; C: only unknown-call set; B: both set on the peer; S: both set through a sub-router
 	Kind   string  `json:"kind"`  // call or push
 	Name   string  `json:"name"`
+	Final  string  `json:"final"` // the name after the peer's header-stage plug-ins (= Name on peers without one)
 	Class  string  `json:"class"`
 	Src    string  `json:"src"` // the registered name the probe was derived from
 	Code   int32   `json:"code"`
@@ -265,6 +272,199 @@ func isCallKind(k string) bool { return k == CallFunc || k == CallStruct }
 
 type probe struct {
 	id, kind, name, class, src string
+	final                      string // "" = name
+}
+
+// aliasPlugin rewrites service methods at the header stage, separately for CALL and PUSH.
+type aliasPlugin struct {
+	mu         sync.RWMutex
+	call, push map[string]string
+}
+
+var (
+	_ erpc.PostReadCallHeaderPlugin = new(aliasPlugin)
+	_ erpc.PostReadPushHeaderPlugin = new(aliasPlugin)
+)
+
+func (a *aliasPlugin) Name() string { return "c10-alias" }
+
+func (a *aliasPlugin) rewrite(m map[string]string, ctx erpc.ReadCtx) {
+	a.mu.RLock()
+	to, ok := m[ctx.ServiceMethod()]
+	a.mu.RUnlock()
+	if ok {
+		ctx.ResetServiceMethod(to)
+	}
+}
+
+func (a *aliasPlugin) PostReadCallHeader(ctx erpc.ReadCtx) *erpc.Status {
+	a.rewrite(a.call, ctx)
+	return nil
+}
+
+func (a *aliasPlugin) PostReadPushHeader(ctx erpc.ReadCtx) *erpc.Status {
+	a.rewrite(a.push, ctx)
+	return nil
+}
+
+func sortedKeys(m map[string]bool) []string {
+	l := make([]string, 0, len(m))
+	for k := range m {
+		l = append(l, k)
+	}
+	sort.Strings(l)
+	return l
+}
+
+// renameClass labels a probe of the rename dimension by what is registered (in the probe's namespace)
+// under the requested and under the final spelling.
+func renameClass(orig, final string, own, other map[string]bool) string {
+	o := "orig-unreg"
+	if own[orig] {
+		o = "orig-reg"
+	}
+	switch {
+	case orig == final && own[final]:
+		return "rename:" + o + ".unchanged"
+	case orig == final:
+		return "rename:" + o + ".unchanged-unreg"
+	case own[final] && own[orig]:
+		return "rename:" + o + ".final-other-handler"
+	case own[final]:
+		return "rename:" + o + ".final-reg"
+	case other[final]:
+		return "rename:" + o + ".final-other-namespace"
+	}
+	return "rename:" + o + ".final-unreg"
+}
+
+// mkIgnoreCaseProbes: requests in several spellings; the final name is the lower-case spelling.
+func mkIgnoreCaseProbes(phase string, calls, pushes map[string]bool) []probe {
+	var ps []probe
+	for _, kind := range []string{"call", "push"} {
+		own, other := calls, pushes
+		if kind == "push" {
+			own, other = pushes, calls
+		}
+		seen := map[string]bool{}
+		add := func(name, src string) {
+			if name == "" || len(name) > 250 || seen[name] {
+				return
+			}
+			seen[name] = true
+			final := strings.ToLower(name)
+			probeSeq++
+			ps = append(ps, probe{fmt.Sprintf("%s%d", phase, probeSeq), kind, name, renameClass(name, final, own, other), src, final})
+		}
+		for _, n := range sortedKeys(own) {
+			add(n, n)
+			for _, nm := range NearMisses(n) {
+				if nm[0] == "case" {
+					add(nm[1], n)
+				}
+			}
+			add(strings.Title(n), n)
+			add(n+"X", n)
+			add(strings.ToUpper(n)+"/x", n)
+		}
+		for _, n := range sortedKeys(other) {
+			if !own[n] {
+				add(n, n)
+				add(strings.ToUpper(n), n)
+			}
+		}
+	}
+	return ps
+}
+
+// mkAliasTable builds the alias tables from the names the registrations returned, and the probes.
+func mkAliasProbes(phase string, calls, pushes map[string]bool, ap *aliasPlugin, fill bool) []probe {
+	var ps []probe
+	for _, kind := range []string{"call", "push"} {
+		own, other := calls, pushes
+		tbl := ap.call
+		if kind == "push" {
+			own, other = pushes, calls
+			tbl = ap.push
+		}
+		L := sortedKeys(own)
+		var O []string
+		for _, n := range sortedKeys(other) {
+			if !own[n] {
+				O = append(O, n)
+			}
+		}
+		if fill {
+			ap.mu.Lock()
+			for i, n := range L {
+				switch i % 5 {
+				case 0:
+					tbl[fmt.Sprintf("alias*%d", i)] = n
+				case 1:
+					if len(L) > 1 {
+						tbl[n] = L[(i+1)%len(L)]
+					}
+				case 2:
+					tbl[n] = fmt.Sprintf("gone*%d", i)
+				case 3:
+					tbl[fmt.Sprintf("alias*u%d", i)] = fmt.Sprintf("nowhere*%d", i)
+				case 4:
+					if len(O) > 0 {
+						tbl[n] = O[i%len(O)]
+					}
+				}
+			}
+			// an unregistered spelling that is an alias of a name that is itself aliased away: one step only
+			if len(L) > 2 {
+				tbl["alias*chain"] = L[1%len(L)]
+			}
+			ap.mu.Unlock()
+		}
+		seen := map[string]bool{}
+		add := func(name, src string) {
+			if name == "" || len(name) > 250 || seen[name] {
+				return
+			}
+			seen[name] = true
+			final, ok := tbl[name]
+			if !ok {
+				final = name
+			}
+			probeSeq++
+			ps = append(ps, probe{fmt.Sprintf("%s%d", phase, probeSeq), kind, name, renameClass(name, final, own, other), src, final})
+		}
+		srcOf := func(orig, final string) string {
+			switch {
+			case own[orig]:
+				return orig
+			case own[final]:
+				return final
+			case other[final]:
+				return final
+			}
+			if len(L) > 0 {
+				return L[0]
+			}
+			return orig
+		}
+		var origs []string
+		for o := range tbl {
+			origs = append(origs, o)
+		}
+		sort.Strings(origs)
+		for _, o := range origs {
+			add(o, srcOf(o, tbl[o]))
+			add(o, srcOf(o, tbl[o]))
+			add(o+"x", srcOf(o, tbl[o])) // not in the table: stays as it is
+			if _, also := tbl[tbl[o]]; !also {
+				add(tbl[o], srcOf(tbl[o], tbl[o])) // the final spelling requested directly
+			}
+		}
+		for _, n := range L {
+			add(n, n) // registered names the table does not mention: unchanged
+		}
+	}
+	return ps
 }
 
 var seps = []string{"/", ".", "_"}
@@ -372,7 +572,7 @@ func mkProbes(phase string, calls, pushes map[string]bool, onlyClasses map[strin
 			return
 		}
 		probeSeq++
-		ps = append(ps, probe{fmt.Sprintf("%s%d", phase, probeSeq), kind, name, class, src})
+		ps = append(ps, probe{id: fmt.Sprintf("%s%d", phase, probeSeq), kind: kind, name: name, class: class, src: src})
 	}
 	sorted := func(m map[string]bool) []string {
 		l := make([]string, 0, len(m))
@@ -414,6 +614,9 @@ func mkProbes(phase string, calls, pushes map[string]bool, onlyClasses map[strin
 // generated registrations; the name the router returns for it is used and never probed).
 func C10Sentinel(ctx erpc.CallCtx, arg *string) (string, *erpc.Status) { return "SENTINEL", nil }
 
+// c10sentinel is the barrier route of the rename peers (its name has no upper-case letter under either mapper).
+func c10sentinel(ctx erpc.CallCtx, arg *string) (string, *erpc.Status) { return "SENTINEL", nil }
+
 func runProbes(srv erpc.Peer, phase string, ps []probe, sentName string) ([]ProbeReport, string) {
 	cli := erpc.NewPeer(erpc.PeerConfig{})
 	defer cli.Close()
@@ -437,7 +640,10 @@ func runProbes(srv erpc.Peer, phase string, ps []probe, sentName string) ([]Prob
 	}
 	pushes := 0
 	for i, p := range ps {
-		r := ProbeReport{ID: p.id, Phase: phase, Kind: p.kind, Name: p.name, Class: p.class, Src: p.src}
+		r := ProbeReport{ID: p.id, Phase: phase, Kind: p.kind, Name: p.name, Final: p.final, Class: p.class, Src: p.src}
+		if r.Final == "" {
+			r.Final = p.name
+		}
 		if p.kind == "call" {
 			var res string
 			st := l.A.Call(p.name, p.id, &res, erpc.WithSetMeta(MetaPID, p.id)).Status()
@@ -478,7 +684,16 @@ func runProbes(srv erpc.Peer, phase string, ps []probe, sentName string) ([]Prob
 
 func runPeer(idx int, spec PeerSpec) (rep PeerReport) {
 	rep.Class = spec.Class
-	srv := erpc.NewPeer(erpc.PeerConfig{})
+	var plugins []erpc.Plugin
+	ap := &aliasPlugin{call: map[string]string{}, push: map[string]string{}}
+	switch spec.Class {
+	case RenameIgnoreCase:
+		plugins = append(plugins, ignorecase.NewIgnoreCase())
+	case RenameAlias:
+		plugins = append(plugins, ap)
+	}
+	rename := len(plugins) > 0
+	srv := erpc.NewPeer(erpc.PeerConfig{}, plugins...)
 	defer srv.Close()
 	rc := &regCtx{peer: srv, cache: map[string]*erpc.SubRouter{}}
 	utag := fmt.Sprintf("U%d", idx)
@@ -506,12 +721,38 @@ func runPeer(idx int, spec PeerSpec) (rep PeerReport) {
 			}
 		}
 	}
-	sentName, _ := SafeMap(MapperFunc(currentMapper), "", "C10Sentinel")
-	if calls[sentName] || sentName == "" {
+	sentIdent, sentFn := "C10Sentinel", interface{}(C10Sentinel)
+	if rename {
+		sentIdent, sentFn = "c10sentinel", interface{}(c10sentinel)
+	}
+	sentName, _ := SafeMap(MapperFunc(currentMapper), "", sentIdent)
+	if calls[sentName] || sentName == "" || (rename && sentName != strings.ToLower(sentName)) {
 		rep.Problem = "sentinel name clashes with a generated route: " + sentName
 		return
 	}
-	sentName = srv.RouteCallFunc(C10Sentinel)
+	sentName = srv.RouteCallFunc(sentFn)
+	runRename := func(phase string, fill bool) bool {
+		var ps []probe
+		if spec.Class == RenameIgnoreCase {
+			ps = mkIgnoreCaseProbes(phase, calls, pushes)
+		} else {
+			ps = mkAliasProbes(phase, calls, pushes, ap, fill)
+		}
+		k := 0
+		for _, p := range ps {
+			if p.name != sentName && p.final != sentName {
+				ps[k] = p
+				k++
+			}
+		}
+		out, problem := runProbes(srv, phase, ps[:k], sentName)
+		if problem != "" {
+			rep.Problem = problem
+			return false
+		}
+		rep.Probes = append(rep.Probes, out...)
+		return true
+	}
 	run := func(phase string, only map[string]bool) bool {
 		ps := mkProbes(phase, calls, pushes, only)
 		k := 0
@@ -543,6 +784,13 @@ func runPeer(idx int, spec PeerSpec) (rep PeerReport) {
 		run("B", nil)
 	case EarlyUnknown:
 		run("B", nil)
+	case RenameIgnoreCase, RenameAlias:
+		if !runRename("A", true) {
+			return
+		}
+		srv.SetUnknownCall(ucall)
+		srv.SetUnknownPush(upush)
+		runRename("B", false)
 	case SubUnknown:
 		g := rc.group(spec.UnknownGroup, true).(*erpc.SubRouter)
 		g.ToRouter().SetUnknownCall(ucall)
@@ -590,7 +838,7 @@ func collideMain(c Collision, out string) {
 		for i, n := range o.NamesA {
 			if n != "" && !seen[n] && len(n) <= 250 {
 				seen[n] = true
-				ps = append(ps, probe{fmt.Sprintf("X%d", i), kind, n, "registered", n})
+				ps = append(ps, probe{id: fmt.Sprintf("X%d", i), kind: kind, name: n, class: "registered", src: n})
 			}
 		}
 		sent := srv.RouteCallFunc(C10Sentinel)
@@ -629,7 +877,7 @@ func collideMain(c Collision, out string) {
 				kind = "call"
 			}
 			sent := srv.RouteCallFunc(C10Sentinel)
-			reps, problem := runProbes(srv, "X", []probe{{"X1", kind, shared, "registered", shared}}, sent)
+			reps, problem := runProbes(srv, "X", []probe{{id: "X1", kind: kind, name: shared, class: "registered", src: shared}}, sent)
 			if problem != "" {
 				o.Shadow = "?(" + problem + ")"
 			} else {
